@@ -124,7 +124,7 @@ structure Machine where
   localIps : List (Ip × Option Subnet)
   /-- `Arp.arp_table` -/
   table : List (Ip × Status)
-deriving Repr
+deriving DecidableEq, Repr
 
 /-- `local_ips.contains_key` -/
 def Machine.owns (m : Machine) (ip : Ip) : Bool := (alookup ip m.localIps).isSome
